@@ -15,7 +15,8 @@
 (* {finite, symmetric, nonneg, zeroself, triangle} is claimed.             *)
 (***************************************************************************)
 EXTENDS Integers, Sequences, FiniteSets, TLC
-CONSTANT MaxL
+CONSTANT MaxL,
+         ExtraLens    \* further vector lengths the forms are instantiated for (beyond any block size an implementation may use)
 
 Rat(p, q) == <<"rat", p, q>>
 C(nm) == <<"leaf", "c", nm>>
@@ -166,7 +167,7 @@ ASSUME \A nm \in TrueMetrics : {"symmetric", "nonneg", "zeroself"} \subseteq Cla
 SetToSeq(S) == CHOOSE f \in [1..Cardinality(S) -> S] : \A a, b \in 1..Cardinality(S) : a # b => f[a] # f[b]
 ASSUME /\ PrintT(<<"NAMES", Names>>)
        /\ \A nm \in Names : PrintT(<<"AX", nm, Domain(nm), Claims(nm)>>)
-       /\ \A nm \in Names : \A L \in 1..MaxL : PrintT(<<"FORM", nm, L, Form(nm, L)>>)
+       /\ \A nm \in Names : \A L \in (1..MaxL) \cup ExtraLens : PrintT(<<"FORM", nm, L, Form(nm, L)>>)
 VARIABLE z
 Init == z = 0
 Next == UNCHANGED z
